@@ -99,7 +99,8 @@ func checkC02(p *Program, r *Report) {
 		"R2 every cycle of the interpreter that evaluates script code and is not bounded by the length of a list in the program text contains a poll or a call of the polling statement dispatcher (cycle test after deleting those blocks). " +
 		"R3 every operation a script can block on (reflect.Select, Recv, Send, native select/receive/send) is a reflect.Select whose case 0 receives from ctx.Done() of the current record, and chosen == 0 stores ErrInterrupt and leaves without evaluating. " +
 		"R4 context threading: records take their context from a context parameter; every context handed to a script function or to reflect.ValueOf comes from the current record's ctx cell, the function's own context parameter or the incoming argument list — never from a captured record; context.Background/TODO only in the convenience wrappers. " +
-		"R5 ErrInterrupt is never wrapped into an ordinary error and never overwritten outside the recover handler and the deferred-call runner (whose precedence rule is C09.R3).")
+		"R5 ErrInterrupt is never wrapped into an ordinary error and never overwritten outside the recover handler and the deferred-call runner (whose precedence rule is C09.R3). " +
+		"R7 no evaluation of script code starts at a point where the error cell can hold ErrInterrupt (the script does not carry on after the cancellation).")
 	r.Assume("the length of the 'short bounded time', time inside one host Go call and fairness of reflect.Select are not decided")
 	m, err := buildVMModel(p)
 	if err != nil {
@@ -369,6 +370,38 @@ func checkC02(p *Program, r *Report) {
 	c02Threading(p, r, m)
 	c02ErrorBox(p, r, m)
 
+	// R7: the script does not carry on: no evaluation of script code starts at a point where the error cell can hold ErrInterrupt
+	{
+		bInt := ea.sentinel("ErrInterrupt")
+		evs := ea.va
+		if evs == nil {
+			evs = buildEvalAnalysis(m)
+		}
+		nEv := 0
+		for _, fn := range m.funcsOnRecord() {
+			cnt := map[string]int{}
+			for _, e := range evs.events[fn] {
+				opnd := strings.Join(e.operands, "|")
+				key := fmt.Sprintf("%s|%s %s", funcName(fn), e.role, normIdx(opnd))
+				cnt[key]++
+				inst := key
+				if cnt[key] > 1 {
+					inst = fmt.Sprintf("%s #%d", key, cnt[key])
+				}
+				st := ea.before[fn][e.call]
+				if st == nil || bInt == 0 {
+					continue
+				}
+				nEv++
+				if st.cell&bInt != 0 && strings.HasSuffix(opnd, ".(IdentExpr)") && e.role == "let" {
+					continue // write-back to a plain identifier evaluates nothing
+				}
+				r.Check(st.cell&bInt == 0, "C02.R7", inst, p.Pos(e.call.Pos()), "the error cell cannot hold ErrInterrupt when this evaluation starts",
+					"this evaluation can start while ErrInterrupt is pending: the script goes on executing after the cancellation (and the evaluation can replace the interruption by its own outcome)")
+			}
+		}
+		r.Floor("C02.R7", nEv, 95)
+	}
 	// R5
 	for _, fn := range m.funcsOnRecord() {
 		if _, isParam := m.baseOf(fn).(*ssa.Parameter); isParam && m.storesNilToDefers(fn) {
